@@ -83,11 +83,16 @@ INVALID_BITS = 0b01111000011
 # ---------------------------------------------------------------- generation
 
 
-def gen_family(rng, measure=None, subpix=None):
+def gen_family(rng, measure=None, subpix=None, tall=False):
     measure = measure or rng.choice(mu.MEASURES)
     subpix = subpix or rng.choice([1, 1, 2, 4])
     window = rng.choice([3, 5]) if measure == "census" else rng.choice([1, 3, 3, 5])
     rows, cols = rng.randrange(max(5, window + 2), 13), rng.randrange(max(7, window + 3), 17)
+    if tall:
+        # a few hundred rows, a handful of columns: any row-blocked rewriting of the masking loops (blocks of ~100
+        # rows, remainders) has to show on the per-pixel grids of the last rows
+        measure, subpix, window = rng.choice(["sad", "ssd"]), 1, rng.choice([1, 1, 3])
+        rows, cols = rng.choice([203, 251, 302, 407]) + rng.randrange(0, 3), rng.randrange(5, 8)
     amp = {"sad": 255, "ssd": 60, "census": 255, "zncc": 255}[measure]
     style = rng.choice(["rand", "rand", "rand", "small"])
     left = mu.gen_image(rng, rows, cols, amp, style)
@@ -123,8 +128,8 @@ def gen_family(rng, measure=None, subpix=None):
     return {"measure": measure, "window": window, "subpix": subpix, "rows": rows, "cols": cols,
             "left": left, "right": right, "mask_l": mask_l, "mask_r": mask_r,
             "J": [a2, b2], "I": [a, b], "grids": [gmin, gmax],
-            "agg": rng.random() < 0.6, "cbca": [rng.choice([2, 3, 5]), rng.choice([3.0, 10.0, 40.0])],
-            "via_file": rng.random() < 0.25,
+            "agg": (not tall) and rng.random() < 0.6, "cbca": [rng.choice([2, 3, 5]), rng.choice([3.0, 10.0, 40.0])],
+            "via_file": (not tall) and rng.random() < 0.25,
             "invalid_disparity": rng.choice([-9999, -9999, 0, "NaN"]),
             "refinement": rng.choice(["vfit", "quadratic"])}
 
@@ -679,6 +684,8 @@ def run(ctx):
     fams = [gen_family(rng, measure=m, subpix=s) for m in mu.MEASURES for s in (1, 2, 4)]
     for i, f in enumerate(fams):                      # every measure x subpix with and without aggregation
         f["agg"] = True
+    for _ in range(2 if quick else 12):
+        fams.append(gen_family(rng, tall=True))
     while len(fams) < n_fam:
         fams.append(gen_family(rng))
     jobs = []
